@@ -142,6 +142,23 @@ Example chain_nonvacuous :
   = [3; 3; 2; 1; 0]%nat /\ loggers_run KNoRoute DServe globals 1 0 = 2%nat /\ loggers_run KRedirect DServe globals 1 0 = 1%nat.
 Proof. repeat split. Qed.
 
+(* scope masks: a Logger attached by WithMiddlewareFor(mask) runs once for a request served by a
+   handler kind of the mask and not at all otherwise (each of the five kinds on its own: the
+   automatic OPTIONS reply is not the 405 handler) *)
+Theorem scoped_logger : forall k mask,
+  let n := if existsb (hscope_eqb (scope_of k)) mask then 1%nat else 0%nat in
+  loggers_run k DServe [AWithMiddlewareFor mask] 0 0 = n
+  /\ expected_records k DServe [AWithMiddlewareFor mask] 0 0 = n.
+Proof. exact scoped_logger_proof. Qed.
+Print Assumptions scoped_logger.
+
+Example scoped_logger_nonvacuous :
+  map (fun k => expected_records k DServe [AWithMiddlewareFor [SRoute; SOptions]] 0 0) [KRoute; KRouteTsr; KNoRoute; KNoMethod; KRedirect; KOptions]
+  = [1; 1; 0; 0; 0; 1]%nat
+  /\ map (fun k => loggers_run k DServe [AWithMiddlewareFor [SNoMethod]] 0 0) [KRoute; KRouteTsr; KNoRoute; KNoMethod; KRedirect; KOptions]
+  = [0; 0; 0; 1; 0; 0]%nat.
+Proof. split; reflexivity. Qed.
+
 (* a log handler with minimum level WARN: nothing for a 2xx, one WARN record for a 404 — the
    decision is taken after the handler, at the record's level *)
 Example min_level_is_checked_at_the_records_level :
